@@ -2,24 +2,46 @@
 
 Lean: DinoProofs/Properties/C05.lean over the models Dino/Dynamics.lean (primitive equations, by C04)
 and Dino/DynamicsSW.lean (layered shallow water + the factories of shallow_water_states).
-Tie: (a) model correspondence of every shallow-water routine and of both factories (matrix-operator
-instance, driver token `sw`) and of the rest-state construction (`dyn`); (b) validation of every
-named law used as a theorem hypothesis on real grids; (c) sentinel probes on the real code:
-rest states over orography (four classes), the analytic-oracle differential (a labelled *test*),
-shallow-water jets through `one_layer` / `multi_layer`.
 
-Known finding (keyed `sw-factory-units`): the factories hard-code radius = 1 and 2Ω = 1.
+Tie to the code, in the order executed by `run`:
+1. `run_shallow_water`: model correspondence of every shallow-water routine and of both factories
+   (matrix-operator instance, driver token `sw`), the physical meaning of `get_density_ratios`, the contract of
+   `jnp.linalg.solve` inside `multi_layer`;
+2. `validate_operator_laws`: the named laws (`LinLaws`, `ConstLaws`, `FactoryLaws`) on real grids;
+3. `probe_shallow_water`: jets `u = cos(lat) p(sin lat)` through `one_layer` / `multi_layer` on the real
+   equations — the hypotheses of T5.3 (`ZonalJet`, resolved layered pressure) are validated on every input, which
+   the generator keeps inside the resolved, alias-free domain; an unresolved control jet shows that the validation
+   discriminates; the Lean negative witnesses are replayed;
+4. `probe_sw_polynomial`: layered shallow water on general low-degree polynomial states against a pointwise
+   evaluation of the continuous equations (labelled TEST);
+5. `probe_primitive`:
+   * `rest_correspondence`: the states of T5.1 through the driver token `dyn` (explicit / implicit terms of the
+     model = those of the four real classes; the model's total is zero);
+   * `probe_rest_factory`: `isothermal_rest_atmosphere` (flat case, the only one claimed) is steady;
+   * (a) `probe_rest`: resting isothermal atmosphere in hydrostatic balance over random band-limited orography,
+     four classes, uniform humidity, uneven level sets: zero total tendency (variants: the theorem's state;
+     unclipped orography = theorem `rest_total_dry`; `T_ref != T`);
+   * (b) `probe_solid_body`: solid-body zonal rotation in gradient-wind balance with any per-layer temperatures,
+     uniform humidity, zonal orography: steady (the balanced member of the analytic-oracle differential; the
+     hypotheses of theorem `zonal_flow_steady` are validated on it);
+   * (c) `probe_polynomial`: degree <= 3 polynomial states, explicit + implicit against a pointwise evaluation of
+     the continuous sigma-coordinate equations with exact horizontal derivatives and the documented vertical
+     finite differences (`c05_pe.sphere_oracle`, labelled TEST), 1e-9 relative.
+Grids with poles (`equiangular_with_poles`) are excluded: `sec^2(lat)` is infinite there by construction.
 
-Tolerances (all measured on the unchanged tree, float64, see `ctx.notes` in the evidence for the
-worst ratio measured / allowed of the current run):
-* hypothesis `clip f = f` of a resolved jet: in exact arithmetic the top total wavenumber of the four
-  fields is zero; in floating point it carries rounding noise of 1e-14 (equiangular) .. 3e-12 (Gaussian
-  T21/T42) of max|f|, so the validation uses 1e-10; the hypotheses are asserted only where they hold analytically (2 deg p + 2 <= L - 1 and
-  exact quadrature), an unresolved control jet (measured 3e-5 .. 4e-2 at the top wavenumber) checks that the
-  validation discriminates;
-* steadiness of balanced states: resting atmosphere 1e-12 (dry) / 1e-10 (moist) of |g lap h| (measured 2e-16 .. 5e-14 and
-  3e-15 .. 2e-12); rotating states 1e-11 L(L+1) of the natural scale (see BAL_TOL); shallow-water jets 1e-11 cond(D + I);
-* analytic-oracle differential: 1e-9 relative (measured 1e-14 .. 2e-11).
+Known finding (keyed `sw-factory-units`): the factories hard-code radius = 1 and 2 Omega = 1.
+
+Tolerances (all measured on the unchanged tree, float64; `ctx.notes` in the evidence records the worst ratio
+measured / allowed of the current run):
+* hypothesis `clip f = f` of a resolved jet: in exact arithmetic the top total wavenumber of the four fields is
+  zero; in floating point it carries rounding noise of 1e-14 (equiangular) .. 3e-12 (Gaussian T21/T42) of max|f|, so
+  the validation uses 1e-10; the hypotheses are asserted only where they hold analytically (2 deg p + 2 <= L - 1
+  and exact quadrature); the unresolved control jet leaves 3e-5 .. 4e-2 at the top wavenumber;
+* resting atmosphere: 1e-12 (dry) / 1e-10 (moist, through a transform round trip) of |g lap h| (measured
+  2e-16 .. 5e-14 and 3e-15 .. 2e-12); rotating states: 1e-11 L(L+1) of the natural scale (see BAL_TOL);
+  shallow-water jets: max(1e-11, 1e-13 L(L+1)) cond(D + I) (measured 3e-13 at T15 .. 4e-12 at T42);
+* analytic-oracle differentials: 1e-9 relative up to T21 (measured 1e-14 .. 3e-11), 1e-9 L(L+1)/500 beyond
+  (measured 1.2e-10 at T42).
 """
 import numpy as np
 
@@ -30,12 +52,15 @@ from props import c05_sw, c05_pe
 from props.c05_sw import SWCfg
 from props.c05_pe import Poly, Q_KEY, QL_KEY, QI_KEY
 
-RULE = ('grids: Gaussian / equiangular (never equiangular_with_poles), both spherical-harmonics implementations, '
-        'radius in {1, 2, 0.37, 6371.22}; level sets 1..8 layers equidistant / uneven / strongly uneven; '
-        'shallow water 1..4 layers, strictly increasing random densities; jets u = cos(lat) p(sin lat), deg p <= 4; '
-        'orography random band-limited; polynomial states of degree <= 3 in (x, y, z); a case is non-trivial when the '
-        'state is not identically zero and (for columns) the level set has >= 2 layers; distinct = distinct '
-        '(probe, configuration, data) hashes')
+RULE = ('grids: Gaussian (quadratic truncation) / equiangular without poles (cubic truncation), T15 / T21 (thorough: '
+        'T31, T42), both spherical-harmonics implementations, radius in {1, 2, 2.5, 0.37, 0.4, 6371.22}; level sets 1..8 '
+        'layers equidistant / uneven / strongly uneven / refined bottom; physical constants random or from_si(); shallow '
+        'water 1..5 layers, random densities (increasing, ties, decreasing); jets u = cos(lat) p(sin lat), deg p <= 4 '
+        '(resolved: 2 deg + 2 <= L - 1); orography random band-limited (clipped and unclipped); solid-body rotation '
+        'with random per-layer temperatures, either root of the balance, zonal orography; polynomial states of degree '
+        '<= 3 in (x, y, z) with Rossby number 0.3 .. 3 (resolved: 3 deg + 2 <= L - 1, exact quadrature); a case is '
+        'non-trivial when the state is not identically zero and (for columns) the level set has >= 2 layers; '
+        'distinct = distinct (probe, configuration, data) hashes')
 
 FINDING_KEY = 'sw-factory-units'
 HYP_CLIP_TOL = 1e-10     # |clip f - f| / max|f| for a field whose top wavenumber is analytically zero
@@ -284,7 +309,7 @@ def validate_jet(ctx, grid, u_lat, pot_modal, inp, resolved=True):
   fields = dict(psi=grid.inverse_laplacian(J(zeta)), b1=T(J(u / cos) * Nd(J(zeta))), b2=T(J(u / cos * sin)),
                 g=T(J(u / cos) * Nd(clip(J(pot_modal)))))
   for k, f in fields.items():
-    ok &= expect(margin('hyp:zonal', relmax(grid.d_dlon(f)), 1e-12 * max(relmax(f), 1e-300)), f'law:jet:zonal_{k}',
+    ok &= expect(margin('hyp:zonal', relmax(grid.d_dlon(f)), 1e-10 * max(relmax(f), 1e-300)), f'law:jet:zonal_{k}',
                  f'd_dlon of the zonal field {k} is not zero', inp)
   x1 = S(T(J(u / cos) * Nd(J(zeta))))
   x2 = S(T(J(u / cos * sin)))
@@ -368,7 +393,10 @@ def probe_shallow_water(ctx):
       s_div = max(relmax(grid.laplacian(jnp.asarray(one_pots))), 1e-300)
       s_vor = max(relmax(st.vorticity), 1e-300)
       s_pot = max(relmax(st.potential), 1e-300)
-      tol = 1e-11 * max(1.0, cond)
+      top = grid.modal_shape[1] - 1
+      # transform noise (2e-14 at T15 .. 5e-13 at T42, see BAL_TOL) is multiplied by the Laplacian's top eigenvalue and by
+      # the solve: measured residuals 3e-13 (T15) .. 4e-12 (T42) of |lap Phi|
+      tol = max(1e-11, 1e-13 * top * (top + 1)) * max(1.0, cond)
       # hypotheses of T5.3 on this input (per layer): asserted, the input is in the resolved domain
       pred = np.zeros_like(tot.divergence)
       hyp_ok = True
@@ -376,8 +404,14 @@ def probe_shallow_water(ctx):
         ok, x2, x3 = validate_jet(ctx, grid, u[k], np.asarray(st.potential[k]), dict(inp, layer=k))
         hyp_ok &= ok
         pred[k] = (1 - radius ** 2) * x3 + (1 - 2 * omega) * x2
+      # hypothesis `hclip` of multi_layer_total: the layered pressure D . Phi is resolved
+      lp = np.asarray(grid.laplacian(jnp.asarray(np.einsum('ab,bml->aml', sw.get_density_ratios(dens.copy()),
+                                                             np.asarray(st.potential)))))
+      hyp_ok &= ctx.expect(margin('hyp:clip', relmax(grid.clip_wavenumbers(jnp.asarray(lp)), lp),
+                                  HYP_CLIP_TOL * max(relmax(lp), s_div)), 'law:jet:clip_layered_pressure',
+                           'clip_wavenumbers changes lap(D . Phi) of a resolved multi-layer state', inp)
       if not hyp_ok:
-        continue      # reported by validate_jet; the conclusions of the theorems are not claimed without them
+        continue      # reported above; the conclusions of the theorems are not claimed without their hypotheses
       # always: zero vorticity / potential tendency, and the divergence tendency is the predicted residual
       ctx.expect(margin('sw:vort', relmax(tot.vorticity), tol * s_vor * s_vor * max(1, radius)) and
                  margin('sw:pot', relmax(tot.potential), tol * s_pot * s_vor * max(1, radius)), 'sw-zonal-vort-pot',
@@ -439,7 +473,13 @@ BAL_TOL = 1e-11      # residual of a balanced rotating state / (natural scale * 
                      # exact to 2e-13 only for >= 31 nodes), and the Laplacian / the two derivatives of the momentum
                      # equations multiply the noise in the top wavenumbers by up to L (L + 1); measured residuals:
                      # 6e-15 (T15), 3.4e-13 (T21), 1.6e-13 (T31), 5e-13 (T42) times L (L + 1)
-ORACLE_TOL = 1e-9    # code vs pointwise continuous equations, relative   (measured 1e-14 .. 2e-11)
+ORACLE_TOL = 1e-9    # code vs pointwise continuous equations, relative, up to T21 (measured 1e-14 .. 3e-11); beyond, the same
+                     # noise amplification as in BAL_TOL applies: 1e-9 * L (L + 1) / 500 (measured 1.2e-10 at T42)
+
+
+def oracle_tol(grid):
+  top = grid.modal_shape[1] - 1
+  return ORACLE_TOL * max(1.0, top * (top + 1) / 500.0)
 
 
 def _tracer_names(cls, extra):
@@ -551,6 +591,11 @@ def probe_rest(ctx, E, G, cls, variant):
                                                      log_surface_pressure=lnp[None], tracers=tr))
     glap = specs.g * np.asarray(grid.laplacian(jnp.asarray(h)))
     s_div = max(relmax(_nodal(grid, jnp, glap)), 1e-300)
+    if moist and variant != 'unclipped':
+      # hypothesis `hrt` of rest_steady_moist / rest_steady_cloud: lap(h) survives the nodal round trip
+      rt = relmax(_modal(grid, jnp, _nodal(grid, jnp, glap)), glap)
+      ctx.expect(margin('hyp:roundtrip', rt, 1e-10 * max(relmax(glap), 1e-300)), 'law:roundtrip_lap_orography',
+                 'to_modal(to_nodal(lap h)) != lap h for a clipped orography', inp)
     s_t = np.sqrt(s_div)
     expected = np.zeros((n,) + ms)
     if variant == 'unclipped':      # theorem rest_total_dry: only what clip_wavenumbers removes from g lap h survives
@@ -653,6 +698,20 @@ def probe_solid_body(ctx, E, G, cls):
                  self_ok, str({f: relmax(orc[f]) for f in scales_}) if not self_ok else '')
   with ctx.impl('solid-body-raised', inp):
     kw, oro = state_from_fields(E, G, fields, tracers, tref, st)
+    # hypotheses of theorem zonal_flow_steady (`ZonalFlow`, zonal fluxes) on this input
+    J = jnp.asarray
+    uv = E.sh.get_cos_lat_vector(J(kw['vorticity']), J(kw['divergence']), grid, clip=False)
+    gl = grid.cos_lat_grad(J(kw['log_surface_pressure']), clip=False)
+    un = _nodal(grid, jnp, uv[0])
+    # (exactly zero in exact arithmetic; the scale of the rounding noise of d/dlon is the size of the field itself,
+    #  including the uniform part of ln ps, not of its - possibly tiny - meridional gradient)
+    s_p = max(relmax(_nodal(grid, jnp, gl[1])), relmax(_nodal(grid, jnp, kw['log_surface_pressure'])) / a)
+    ctx.expect(margin('hyp:zonal-flow', relmax(_nodal(grid, jnp, uv[1])), 1e-10 * max(relmax(un), 1e-300)) and
+               margin('hyp:zonal-flow', relmax(_nodal(grid, jnp, gl[0])), 1e-10 * s_p),
+               'law:zonal-flow', 'meridional wind / zonal pressure gradient of a zonal state is not zero', inp)
+    flux = _modal(grid, jnp, un * _nodal(grid, jnp, kw['temperature_variation']) * np.asarray(grid.sec2_lat))
+    ctx.expect(margin('hyp:zonal-flow', relmax(grid.d_dlon(J(flux))), 1e-10 * max(relmax(flux), 1e-300)),
+               'law:zonal-flux', 'd_dlon of the zonal flux u T sec^2 is not zero', inp)
     tot = E.total(cls, tref, oro, coords, specs, kw)
     for k in tracers:
       scales_['tr:' + k] = max(relmax(kw['tracers'][k]), 1e-300) * rate
@@ -705,17 +764,72 @@ def probe_polynomial(ctx, E, G, cls, deg):
         want = _nodal(grid, jnp, grid.clip_wavenumbers(grid.to_modal(jnp.asarray(want))))
       s = max(relmax(want), 1e-300)
       r = relmax(got, want)
-      ctx.expect(margin('oracle', r, ORACLE_TOL * s), f'continuous-equations:{cls}:{f.split(":")[0]}',
+      ctx.expect(margin('oracle', r, oracle_tol(grid) * s), f'continuous-equations:{cls}:{f.split(":")[0]}',
                  f'{f}: explicit + implicit differs from the continuous sigma-coordinate equations by {r / s:.2e} '
                  f'(degree-{deg} polynomial state)', inp)
     if cls != 'dry':
       ctx.expect(tot['sim_time'] == 1.0, f'continuous-equations:{cls}:sim_time', 'sim_time does not advance at rate one', inp)
 
 
+def probe_rest_factory(ctx, E):
+  """`primitive_equations_states.isothermal_rest_atmosphere`, flat case (p1 = 0): the state is steady.
+
+  Over orography the factory uses the barometric formula of a standard atmosphere with a lapse rate, not the
+  isothermal one, so its state is not in hydrostatic balance with the isothermal temperature it sets; the property
+  claims the flat case only, the imbalance over a 2 km mountain is recorded in the evidence notes (not asserted)."""
+  from dinosaur import primitive_equations_states as pes
+  rng, jnp, pe, jax = ctx.rng, E.jnp, E.pe, E.jax
+  units = E.scales.units
+  specs = pe.PrimitiveEquationsSpecs.from_si()
+  grid = E.grid(21)
+  top = grid.modal_shape[1] - 1
+  for n in ([3] if ctx.quick else [1, 3, 6]):
+    b, kind = dinoutil.random_boundaries(rng, n)
+    coords = E.cs.CoordinateSystem(horizontal=grid, vertical=E.sc.SigmaCoordinates(b))
+    tk = float(rng.uniform(200, 320))
+    inp = dict(probe='isothermal_rest_atmosphere', layers=n, boundaries=b.tolist(), tref_K=tk, p1=0.0, surface_height=None)
+    ctx.dist[f'rest-factory:flat:layers={n}'] += 1
+    ctx.case(('rest-factory', n, tk, b.tobytes()), nontrivial=n >= 2)
+    with ctx.impl('rest-factory-raised', inp):
+      fn, aux = pes.isothermal_rest_atmosphere(coords, specs, tref=tk * units.degK, p1=0. * units.pascal)
+      st = fn(jax.random.PRNGKey(int(rng.integers(0, 2 ** 31))))
+      oro = pe.truncated_modal_orography(aux['orography'], coords)
+      tref = np.asarray(aux['ref_temperatures'], dtype=float)
+      for cls in ('dry', 'time'):
+        tot = E.total(cls, tref, oro, coords, specs, dict(
+            vorticity=st.vorticity, divergence=st.divergence, temperature_variation=st.temperature_variation,
+            log_surface_pressure=st.log_surface_pressure, tracers={}))
+        # ln ps is uniform; to_modal(log(ps)) carries transform noise in the other coefficients (see BAL_TOL)
+        s_div = specs.R * tref.max() * relmax(st.log_surface_pressure) / specs.radius ** 2
+        for f, sc in dict(vorticity=s_div, divergence=s_div, temperature_variation=tref.max() * np.sqrt(s_div),
+                          log_surface_pressure=np.sqrt(s_div)).items():
+          r = relmax(_nodal(grid, jnp, tot[f]))
+          ctx.expect(margin('rest:factory', r, BAL_TOL * top * (top + 1) * sc), f'rest-factory-not-steady:{cls}',
+                     f'isothermal_rest_atmosphere (flat, p1 = 0): {f} tendency {r:.2e}', inp)
+  # not asserted: the factory over a mountain
+  try:
+    lon, sin_lat = grid.nodal_mesh
+    coords = E.cs.CoordinateSystem(horizontal=grid, vertical=E.sc.SigmaCoordinates.equidistant(3))
+    height = 2000 * np.exp(-((np.asarray(lon) - np.pi) ** 2 + np.arcsin(np.asarray(sin_lat)) ** 2) / 0.3)
+    fn, aux = pes.isothermal_rest_atmosphere(coords, specs, p1=0. * units.pascal, surface_height=height * units.meter)
+    st = fn(jax.random.PRNGKey(0))
+    oro = pe.truncated_modal_orography(aux['orography'], coords)
+    tot = E.total('dry', aux['ref_temperatures'], oro, coords, specs, dict(
+        vorticity=st.vorticity, divergence=st.divergence, temperature_variation=st.temperature_variation,
+        log_surface_pressure=st.log_surface_pressure, tracers={}))
+    glap = relmax(_nodal(grid, jnp, specs.g * grid.laplacian(oro)))
+    ctx.notes.append('not asserted: isothermal_rest_atmosphere over a 2 km Gaussian mountain has divergence tendency '
+                     f'{relmax(_nodal(grid, jnp, tot["divergence"])) / glap:.1%} of |g lap h| (lapse-rate barometric formula '
+                     'with an isothermal temperature); the isothermal balance ln ps = ln p0 - g h / (R T) is exact (probe rest)')
+  except Exception as e:  # pylint: disable=broad-except
+    ctx.notes.append(f'isothermal_rest_atmosphere over orography could not be evaluated: {type(e).__name__}')
+
+
 def probe_primitive(ctx):
   E = c05_pe.Env()
   rng, jnp = ctx.rng, E.jnp
   rest_correspondence(ctx, E)
+  probe_rest_factory(ctx, E)
   # (grid, layers) combinations: JAX compiles per shape, so few shapes and several level sets / states per shape
   combos = [dict(wn=21, spacing='gauss', impl='real', dealiasing='quadratic', n=3, radius=1.0, deg=3),
             dict(wn=15, spacing='gauss', impl='fast', dealiasing='quadratic', n=1, radius=2.5, deg=2),
@@ -795,7 +909,7 @@ def probe_sw_polynomial(ctx):
           got = np.asarray(grid.to_nodal(jnp.asarray(getattr(tot, f))))
           s_ = max(relmax(want), 1e-300)
           r = relmax(got, want)
-          ctx.expect(margin('sw:oracle', r, ORACLE_TOL * s_), f'sw-continuous-equations:{f}',
+          ctx.expect(margin('sw:oracle', r, oracle_tol(grid) * s_), f'sw-continuous-equations:{f}',
                      f'{f}: explicit + implicit differs from the continuous layered shallow-water equations by '
                      f'{r / s_:.2e} (degree-{deg} polynomial state)', inp)
 
@@ -812,7 +926,7 @@ def run(ctx: common.Ctx):
   except Exception:  # pylint: disable=broad-except
     pass
   ctx.lean('DinoProofs.Properties.C05', 'C05.txt',
-           extra_files=['DinoProofs/Lemmas/Balance.lean', 'DinoProofs/Lemmas/BalanceSW.lean', 'DinoProofs/Lemmas/BalanceCol.lean',
+           extra_files=['DinoProofs/Lemmas/Balance.lean', 'DinoProofs/Lemmas/BalanceSW.lean', 'DinoProofs/Lemmas/BalanceCol.lean', 'DinoProofs/Lemmas/BalanceZonal.lean',
                         'Dino/DynamicsSW.lean',
                         'Dino/Dynamics.lean'])
   import time
